@@ -295,6 +295,9 @@ def memo_actions(keys, with_fft):
     qs += [M("Diatonic", ["C", T(3, 7), 2], "ascending"), M("Diatonic", ["C", T(3, 7)], "ascending"), M("Ionian", ["C"], "ascending"),
            M("Ionian", ["C", 2], "descending"), M("Dorian", ["D", 2], "ascending"), M("Dorian", ["D"], "ascending"),
            M("Diatonic", ["C", T(2, 6)], "ascending")]
+    # the "no chord" answers (empty lists: easily one shared object)
+    qs += [Q("chords", "from_shorthand", "NC"), Q("chords", "from_shorthand", "N.C."), Q("chords", "determine", []),
+           Q("chords", "from_shorthand", ["C", "NC"]), Q("progressions", "to_chords", "VIII", k0), Q("scales", "determine", ["C", "C#", "D", "D#", "E", "F", "F#", "G"])]
     # questions that are refused (a key that does not exist): refused the same way however often and whatever came before
     qs += [Q("keys", "get_notes", "G#"), Q("chords", "triads", "G#"), Q("keys", "get_key_signature", "G#"), Q("intervals", "third", "C", "G#"),
            Q("progressions", "to_chords", "I", "G#"), Q("keys", "get_notes", "H")]
@@ -966,6 +969,12 @@ def arg_assignments(entry):
         for i, c in enumerate(counts):
             for j in range(1, c):
                 combos.append(tuple(j if k == i else 0 for k in range(len(counts))))
+        # and every pair of deviations (a dict argument together with a keyword that the callee might write into it)
+        for i1 in range(len(counts)):
+            for i2 in range(i1 + 1, len(counts)):
+                for j1 in range(1, counts[i1]):
+                    for j2 in range(1, counts[i2]):
+                        combos.append(tuple(j1 if k == i1 else (j2 if k == i2 else 0) for k in range(len(counts))))
     return [[[p, j] for (p, _), j in zip(given, combo)] for combo in combos]
 
 
